@@ -56,6 +56,14 @@ def norm(s):
     return re.sub(r'\s+', ' ', s).strip()
 
 
+def norm_seg(s):
+    """path-segment key: whitespace-free, with `::core::x::Trait` / `core::x::Trait` written as `Trait` (so a derived impl
+    as rustc prints it and a hand-written `impl Clone for T` are the same anchor)"""
+    s = re.sub(r'\s+', '', s)
+    s = re.sub(r'(?<![A-Za-z0-9_])(?:::)?(?:core|std)::(?:[a-z_]+::)+(?=[A-Z])', '', s)
+    return s
+
+
 def classify(rest):
     rest = re.sub(r'^(unsafe |const |default |extern "C" )+(?=(fn|impl|trait)\b)', '', rest)
     m = re.match(r'(mod|fn|struct|enum|trait|const|static|type)\s+([A-Za-z_][A-Za-z0-9_]*)', rest)
@@ -155,8 +163,8 @@ class Expansion:
         cur = self.items
         node = None
         for seg in path:
-            seg_n = norm(seg)
-            nxt = [x for x in cur if x.name is not None and norm(x.name) == seg_n and x.kind != 'use']
+            seg_n = norm_seg(seg)
+            nxt = [x for x in cur if x.name is not None and norm_seg(x.name) == seg_n and x.kind != 'use']
             if not nxt:
                 have = sorted(set(x.name for x in cur if x.name and x.kind != 'use'))
                 raise LostAnchor("lost anchor: segment %r of %r not found (have: %s)" % (seg, " / ".join(path), have[:60]))
@@ -466,6 +474,31 @@ def rule_x12(text, log):
     return re.sub(r'(?<![A-Za-z0-9_])b"((?:\\.|[^"\\])*)"', rep, text)
 
 
+def rule_x13(text, log):
+    """by-value `mut self` (rejected by Verus 0.2026.09.13): the parameter is written `self` and moved into a mutable local
+    that the body uses instead: `fn f(mut self) { B }` -> `fn f(self) { let mut __self = self; B[self := __self] }`"""
+    bo = body_open(text)
+    m = mask(text)
+    mm = re.search(r'\(\s*mut\s+self\b', m[:bo])
+    if not mm or bo < 0:
+        return text
+    hdr = text[:bo]
+    hdr2 = hdr[:mm.start()] + '(self' + hdr[mm.end():]
+    body = text[bo:]
+    mb = mask(body)
+    out = []
+    last = 0
+    for w in re.finditer(r'(?<![A-Za-z0-9_])self(?![A-Za-z0-9_])', mb):
+        out.append(body[last:w.start()])
+        out.append('__self')
+        last = w.end()
+    out.append(body[last:])
+    body2 = "".join(out)
+    body2 = body2[0] + ' let mut __self = self;' + body2[1:]
+    log.append({'rule': 'X13', 'before': norm(hdr)[:120], 'after': norm(hdr2)[:120] + ' { let mut __self = self; ... }'})
+    return hdr2 + body2
+
+
 # ---------------------------------------------------------------------------------- injection
 def enclosing_statement(text, idx):
     """innermost statement (start, end) containing position idx"""
@@ -504,6 +537,10 @@ def resolve_anchor(text, anchor):
         return body_open(text) + 1
     if a[0] == 'fn-end':
         st = top_statements(text)
+        if st and not m[st[-1][0]:st[-1][1]].rstrip().endswith((';', '}')) and '->' not in m[:body_open(text)]:
+            # unit fn ending in an unterminated call expression: ghost code goes after it, behind an added `;`
+            # (for a `()`-typed tail expression `e` and `e;` are the same program)
+            return (st[-1][1], ';')
         if st and not m[st[-1][0]:st[-1][1]].rstrip().endswith((';', '}')):
             return st[-1][0]        # the body ends in a tail expression: ghost code goes before it
         if st and not m[st[-1][0]:st[-1][1]].rstrip().endswith(';') and '->' in m[:body_open(text)]:
@@ -628,7 +665,10 @@ def inject(text, sections, twin=False, ret='r'):
     order = 2
     for anchor, lines_ in sections.get('at', []):
         pos = resolve_anchor(text, anchor)
-        edits.append((pos, order, "\n" + "\n".join(lines_) + "\n"))
+        pre = ''
+        if isinstance(pos, tuple):
+            pos, pre = pos
+        edits.append((pos, order, pre + "\n" + "\n".join(lines_) + "\n"))
         order += 1
     out = text
     for pos, _o, t in sorted(edits, key=lambda e: (e[0], e[1]), reverse=True):
@@ -673,6 +713,8 @@ def apply_rules(text, flags, log, path):
         text = rule_x9(text, mylog)
     if 'x12' in flags:
         text = rule_x12(text, mylog)
+    if 'x13' in flags:
+        text = rule_x13(text, mylog)
     if 'x10' in flags:
         v = flags['x10']
         text = rule_x10(text, mylog, v if isinstance(v, str) else None)
@@ -688,6 +730,8 @@ def build_unit(template_text, expansions, twin=False):
     out = []
     meta = {'unit': None, 'profile': 'default', 'fns': [], 'items': [], 'rules': [], 'lemmas': []}
     props = []
+    depmode = False
+    saved_props = []
     i = 0
     n = len(lines)
 
@@ -711,11 +755,26 @@ def build_unit(template_text, expansions, twin=False):
             meta['profile'] = d.split()[1]
         elif d.startswith('props '):
             props = d.split()[1:]
+        elif d.startswith('include ') and d.split()[1].startswith('std_') and d.split()[1] in meta.get('includes', []):
+            pass        # assumed std specs are crate-global in Verus: declared once per unit, by the first module that needs them
         elif d.startswith('include '):
             inc = open(os.path.join(os.path.dirname(os.path.abspath(__file__)), '..', 'units', 'inc', d.split()[1])).read()
-            lines[i + 1:i + 1] = inc.split('\n')
+            il = inc.split('\n')
+            if ' -- dep' in d:
+                # dependency include: its functions are verified in this unit too (so callers see proved contracts, not
+                # stubs) but are reported under the unit that owns them, not here
+                il = ['//% depmode on'] + il + ['//% depmode off']
+            lines[i + 1:i + 1] = il
             n = len(lines)
             meta.setdefault('includes', []).append(d.split()[1])
+        elif d.startswith('depmode '):
+            depmode = d.split()[1] == 'on'
+            if depmode:
+                saved_props = list(props)
+                meta.setdefault('dep_ranges', []).append([cur_line(), None])
+            else:
+                props = saved_props
+                meta['dep_ranges'][-1][1] = cur_line()
         elif d.startswith('item '):
             path, flags = split_path_flags(d[5:])
             exp = expansions[meta['profile']]
@@ -789,7 +848,9 @@ def build_unit(template_text, expansions, twin=False):
             start = cur_line()
             out.append(text)
             p = flags['props'].split(',') if 'props' in flags else list(props)
-            meta['fns'].append({'path': " / ".join(path), 'lines': [start, cur_line() - 1], 'props': p,
+            if depmode:
+                p = []
+            meta['fns'].append({'path': " / ".join(path), 'lines': [start, cur_line() - 1], 'props': p, 'dep': depmode,
                                 'src_lines': [it.start + 1, it.end + 1], 'notwin': 'notwin' in flags, 'has_body': body_open(text) >= 0,
                                 'has_sig': bool("".join(sections['sig']).strip()),
                                 'n_loop_clauses': len(sections['loops']), 'n_proof_blocks': len(sections['at'])})
